@@ -10,7 +10,7 @@ import (
 
 func init() {
 	register("C14", propMeta{
-		Explanation: "E-PANIC + E-CONST + E-GUARD over the broker's HTTP surface. O-0: the routes registered in main are enumerated from the http.Handle/HandleFunc calls. O-1: from every handler entry point (ServeHTTP methods, handler functions reached through the handler field, metric callbacks) no repository code path contains an explicit panic, Fatal/Exit or undischarged single-value assertion; the Prometheus With() panics are discharged by O-1b label-set agreement (literal key set of every prometheus.Labels{...} equals the label names given to that vector's constructor). O-2: a request body is only ever read through http.MaxBytesReader(w, r.Body, 100000) and a failed read answers 4xx without reaching the IPC layer. O-3: after each IPC call the success output is behind err == nil and every error path writes a 4xx/5xx status before returning. O-4: the legacy shim and the versioned path share the single ClientOffers call site. O-5 no unbounded wait inside a handler: the channel-rendezvous obligations of C04 (reply obligation, abandonable peer, claimed means committed, deregistration, lock hygiene) are evaluated here as well, under rule names prefixed O-5/C04. A handler panic makes net/http drop the connection without a response, so each clause is a necessary condition of 'every request gets a well-formed response'. Added after the second seeding round: O-6/C02 the Broker loop's poll goroutine works on its own poll (no captured loop variable) and the broker rows of the guarded-by table hold (an unlocked iteration of the id map is a fatal runtime error for the whole process). Added after the third seeding round: O-1d every status the legacy shim writes is a constant or comes from a table whose miss case yields a valid status.",
+		Explanation: "E-PANIC + E-CONST + E-GUARD over the broker's HTTP surface. O-0: the routes registered in main are enumerated from the http.Handle/HandleFunc calls. O-1: from every handler entry point (ServeHTTP methods, handler functions reached through the handler field, metric callbacks) no repository code path contains an explicit panic, Fatal/Exit or undischarged single-value assertion; the Prometheus With() panics are discharged by O-1b label-set agreement (literal key set of every prometheus.Labels{...} equals the label names given to that vector's constructor). O-2: a request body is only ever read through http.MaxBytesReader(w, r.Body, 100000) and a failed read answers 4xx without reaching the IPC layer. O-3: after each IPC call the success output is behind err == nil and every error path writes a 4xx/5xx status before returning. O-4: the legacy shim and the versioned path share the single ClientOffers call site. O-5 no unbounded wait inside a handler: the channel-rendezvous obligations of C04 (reply obligation, abandonable peer, claimed means committed, deregistration, lock hygiene) are evaluated here as well, under rule names prefixed O-5/C04. A handler panic makes net/http drop the connection without a response, so each clause is a necessary condition of 'every request gets a well-formed response'. Added after the second seeding round: O-6/C02 the Broker loop's poll goroutine works on its own poll (no captured loop variable) and the broker rows of the guarded-by table hold (an unlocked iteration of the id map is a fatal runtime error for the whole process). Added after the third seeding round: O-1d every status the legacy shim writes is a constant or comes from a table whose miss case yields a valid status. Added after the fourth seeding round: O-1e/O-1f the index and nil-error obligations on everything reachable from a handler; O-1g a WriteTimeout or TimeoutHandler of the broker's server is a constant above ClientTimeout and ProxyTimeout; O-6/C20 the broker's guarded-by rows (an unlocked map write is a fatal 'concurrent map writes' that answers nobody).",
 		NotDecided:  "net/http's own behaviour, byte-level well-formedness of responses, timing (C04), panics inside third-party libraries other than the label-mismatch panic of prometheus With().",
 		Assumptions: []string{"third-party/stdlib callees do not panic except prometheus With()/GetMetricWith on label mismatch", "net/http recovers handler panics by closing the connection (the behaviour the property forbids)"},
 	}, runC14)
@@ -154,6 +154,83 @@ func runC14(c *Ctx) {
 		return ""
 	})
 	c.checkConstIndexes("O-1c constant indexes into submatch/split results", reached)
+	{
+		var own []*ssa.Function
+		for _, fn := range reached {
+			if p.IsRepoFn(fn) && fn.Blocks != nil {
+				own = append(own, fn)
+			}
+		}
+		c.checkConstIndexGuardsOpt("O-1e constant indexes into strings and slices are behind a length-establishing edge", own, false)
+		c.checkNilErrorInvokes("O-1f no method is invoked on an error that may be nil", own)
+	}
+
+	// ---- O-1g the server's own deadlines leave room for the long polls ----
+	// net/http arms the write deadline when the request has been read: a WriteTimeout (or a TimeoutHandler) at or
+	// below the time a poll may legitimately wait closes the connection before the handler answers
+	{
+		rule := "O-1g server deadlines exceed the long-poll waits"
+		maxWait := int64(0)
+		for _, name := range []string{"ClientTimeout", "ProxyTimeout"} {
+			if k := p.Const("broker", name); k != nil {
+				var v int64
+				if _, err := fmt.Sscan(k.Val().ExactString(), &v); err == nil && v > maxWait {
+					maxWait = v
+				}
+			}
+		}
+		n := 0
+		for _, fn := range p.FnsIn("broker") {
+			allInstrs(fn, func(in ssa.Instruction) {
+				st, ok := in.(*ssa.Store)
+				if !ok {
+					return
+				}
+				fa, ok := st.Addr.(*ssa.FieldAddr)
+				if !ok {
+					return
+				}
+				stt := derefStruct(fa.X.Type())
+				if stt == nil || !strings.HasSuffix(fa.X.Type().String(), "net/http.Server") {
+					return
+				}
+				name := stt.Field(fa.Field).Name()
+				if name != "WriteTimeout" && name != "ReadTimeout" && name != "IdleTimeout" && name != "ReadHeaderTimeout" {
+					return
+				}
+				n++
+				if name != "WriteTimeout" {
+					c.ok(rule, "http.Server."+name, p.instrPos(st), "does not bound the handler's answer")
+					return
+				}
+				d, okd := constInt(st.Val)
+				need := maxWait * 1000000000
+				c.check(okd && (d == 0 || d > need), rule, "http.Server.WriteTimeout leaves room for a full long poll", p.instrPos(st), fmt.Sprintf("%d ns", d),
+					fmt.Sprintf("the write deadline (%d ns) is not a constant above the %d s a poll may wait: idle proxy polls and matched client polls are cut off without a response", d, maxWait))
+			})
+			for _, ci := range callsTo(fn, "net/http.TimeoutHandler") {
+				n++
+				d, okd := constInt(ci.Common().Args[1])
+				c.check(okd && d > maxWait*1000000000, rule, "http.TimeoutHandler leaves room for a full long poll", p.instrPos(ci), "", "the handler timeout is below the time a poll may wait")
+			}
+		}
+		if n == 0 {
+			c.okTrivial(rule, "the broker's http.Server sets no deadline of its own", "-", fmt.Sprintf("longest handler wait %d s", maxWait))
+		}
+	}
+	// a crash of the process answers nobody: the broker's shared state is accessed under its locks (C20's rows
+	// for the broker; an unlocked map write is a fatal 'concurrent map writes', not a recoverable panic)
+	{
+		var rows []guardRow
+		for _, r := range guardTable {
+			if r.Rel == "broker" || strings.HasPrefix(r.Rel, "common/ipsetsink") {
+				rows = append(rows, r)
+			}
+		}
+		c.prefix = "O-6/C20:"
+		c.checkGuardRows("O-1 guarded-by table", rows, append(p.FnsIn("broker"), p.FnsIn("common/ipsetsink", "common/ipsetsink/sinkcluster")...))
+		c.prefix = ""
+	}
 
 	// ---- O-1d status codes are constants ----
 	// net/http panics on WriteHeader(code) with code < 100 or > 999: a status looked up or computed at run
